@@ -316,8 +316,12 @@ func (h *RetryHandler) markEndpointUnhealthy(ctx context.Context, endpoint *doma
 
 	now := time.Now()
 
-	// Work with copy to preserve original state
-	endpointCopy := *endpoint
+	// Work with copy to preserve original state. The endpoint handed in is the snapshot taken
+	// when the request was routed; a request can run for minutes, and health checks that failed
+	// in the meantime have advanced the failure count and back-off. Continue from what the
+	// repository holds now, or the write below would rewind the back-off schedule.
+	stored := h.storedEndpoint(ctx, endpoint)
+	endpointCopy := *stored
 	endpointCopy.Status = domain.StatusOffline
 	endpointCopy.ConsecutiveFailures++
 	endpointCopy.LastChecked = now
@@ -346,6 +350,11 @@ func (h *RetryHandler) markEndpointUnhealthy(ctx context.Context, endpoint *doma
 		backoffInterval = constants.DefaultMaxBackoffSeconds
 	}
 	endpointCopy.NextCheckTime = now.Add(backoffInterval)
+	// A failure seen by a request is a reason to look at the endpoint sooner, never later: a
+	// health check that is already scheduled earlier (or overdue) stays where it is
+	if !stored.NextCheckTime.IsZero() && stored.NextCheckTime.Before(endpointCopy.NextCheckTime) {
+		endpointCopy.NextCheckTime = stored.NextCheckTime
+	}
 
 	h.logger.Warn("Marking endpoint as unhealthy due to connection failure",
 		"endpoint", endpoint.Name,
@@ -355,6 +364,21 @@ func (h *RetryHandler) markEndpointUnhealthy(ctx context.Context, endpoint *doma
 
 	// Persist status change via discovery service
 	h.updateEndpointStatus(ctx, &endpointCopy)
+}
+
+// storedEndpoint returns the repository's current record of the endpoint, or the endpoint
+// itself when the repository cannot be read or no longer knows it
+func (h *RetryHandler) storedEndpoint(ctx context.Context, endpoint *domain.Endpoint) *domain.Endpoint {
+	all, err := h.discoveryService.GetEndpoints(ctx)
+	if err != nil {
+		return endpoint
+	}
+	for _, ep := range all {
+		if ep != nil && ep.URLString == endpoint.URLString && ep.Name == endpoint.Name {
+			return ep
+		}
+	}
+	return endpoint
 }
 
 // updateEndpointStatus persists endpoint state changes
